@@ -24,6 +24,7 @@ RULES_DOC["X7"] = common.X7_DOC
 RULES_DOC["X4"] = common.X4_DOC
 RULES_DOC["X5"] = common.X5_DOC
 RULES_DOC["R7"] = "batch push (ABT_pool_push_threads[_ex]): handles are compacted into the unit buffer with one counter -- every store into the buffer is indexed by the counter that is incremented with it, and ABTI_pool_push_many receives that buffer and that counter (NULL handles are skipped without leaving holes or pushing unwritten slots)"
+RULES_DOC["R10"] = "size queries: ABT_pool_get_size / ABT_sched_get_size count queued units (ABTI_pool_get_size), ABT_pool_get_total_size / ABT_sched_get_total_size add the blocked units (ABTI_pool_get_total_size); each public getter reaches exactly the internal helper of its own name (a user scheduler that stops at total size 0 must still see its blocked units; a quiescent pool with only blocked units has size 0)"
 RULES_DOC["R9"] = "inserting a unit links it with BOTH neighbours in BOTH directions (tail->next, head->prev, unit->prev, unit->next) and moves exactly the queue end it is pushed to; the first unit of an empty queue points at itself and becomes head and tail: a tail pop or a remove follows the backward links"
 RULES_DOC["R8"] = "unlinking a unit from a queue that keeps other units rewires BOTH neighbours (prev->next and next->prev): the list is circular, so the tail's forward link is part of the structure a later tail pop or remove reads"
 RULES_DOC.update({
@@ -760,6 +761,23 @@ def rule_R9(P, rep):
     rep.need(n >= 4, "only %d insertion paths found" % n)
 
 
+def rule_R10(P, rep):
+    """The public size queries report what their name says: *_get_size counts the queued units, *_get_total_size adds the
+    units that are blocked and will come back (num_blocked).  Each public getter reaches the internal helper of the same
+    name."""
+    n = 0
+    for api, file, want in (("ABT_pool_get_size", "src/pool/pool.c", "ABTI_pool_get_size"),
+                            ("ABT_pool_get_total_size", "src/pool/pool.c", "ABTI_pool_get_total_size"),
+                            ("ABT_sched_get_size", "src/sched/sched.c", "ABTI_pool_get_size"),
+                            ("ABT_sched_get_total_size", "src/sched/sched.c", "ABTI_pool_get_total_size")):
+        F = P.fn(api, file, flat=True)
+        used = sorted(set(F.nodes[i]["fn"] for _b, i in F.calls() if re.match(r"^ABTI_pool_get_(total_)?size$", F.nodes[i].get("fn") or "")))
+        n += 1
+        rep.ob("R10", "%s is computed with %s" % (api, want), used == [want], "uses %s" % used, loc="%s:%d" % (F.file, F.line),
+               site="size-query/%s" % api)
+    rep.need(n == 4, "size queries")
+
+
 def run(P, rep, tier):
     common.rule_X7(P, rep, records=('data',))
     common.rule_widths(P, rep, [('thread_queue_t', 'num_threads')])
@@ -773,3 +791,4 @@ def run(P, rep, tier):
     rule_R7(P, rep)
     rule_R8(P, rep)
     rule_R9(P, rep)
+    rule_R10(P, rep)
